@@ -26,7 +26,7 @@ CMPOPS = {"Eq": "==", "NotEq": "!=", "Lt": "<", "LtE": "<=", "Gt": ">", "GtE": "
 TYPES = {"TObject": "object", "TInt": "int", "TBool": "bool", "TStr": "str", "TTuple": "tuple", "TList": "list",
          "TSet": "set", "TFloat": "float", "TType": "type", "TNoneT": "type(None)"}
 BUILTINS = {"BIsinstance": "isinstance", "BIssubclass": "issubclass", "BHasattr": "hasattr", "BCallable": "callable",
-            "BAny": "any", "BAll": "all", "BSum": "sum", "BMin": "min", "BMax": "max", "BSet": "set", "BLen": "len"}
+            "BAny": "any", "BAll": "all", "BSum": "sum", "BMin": "min", "BMax": "max", "BSet": "set", "BLen": "len", "BBool": "bool"}
 METHS = {"Startswith": "startswith", "Endswith": "endswith"}
 BOPS = {"BOr": " or ", "BAnd": " and "}
 
